@@ -624,7 +624,11 @@ func (d *diffEnv) stepOn(ci int, args []string) (resp.Value, bool) {
 	} else if why := model.Match(exp, got); why != "" {
 		diverged = true
 		sig := fmt.Sprintf("%s/%s/reply/%s/%s-vs-%s", d.monitor, tag, prior, exp.Class(), model.Class(got))
-		if s2 := refineReplySig(args, got); s2 != "" {
+		var fo *model.Obj
+		if i := firstKeyArg(args); i > 0 && i < len(args) {
+			fo = d.m.DB[sess.DB][args[i]]
+		}
+		if s2 := refineReplySig(args, got, fo); s2 != "" {
 			sig = "model/" + s2
 			stepSig = sig
 		}
@@ -710,6 +714,32 @@ func (d *diffEnv) compareDB(db int, args []string, tag, prior string, got resp.V
 				diverged = true
 				r.Report(fmt.Sprintf("inert/%s/%s/changed-on-error%s", tag, prior, dbTag),
 					fmt.Sprintf("%s failed with %s but key %q (db %d) changed: before %s, after %s", cmdString(args), got, k, db, before, after), d.replay(nil))
+			}
+			if (after == nil || after.Type == "none") && before.Type != "none" && before.PTTL < 0 && prev.Listed[k] {
+				diverged = true
+				r.Report(fmt.Sprintf("inert/%s/%s/removed-on-error%s", tag, prior, dbTag),
+					fmt.Sprintf("%s failed with %s but key %q (db %d, no TTL) is gone: before %s", cmdString(args), got, k, db, before), d.replay(nil))
+			}
+		}
+		for k, after := range dump.Keys {
+			before := prev.Keys[k]
+			if after.Type != "none" && dump.Listed[k] && before != nil && before.Type == "none" && !prev.Listed[k] {
+				diverged = true
+				r.Report(fmt.Sprintf("inert/%s/%s/created-on-error%s", tag, prior, dbTag),
+					fmt.Sprintf("%s failed with %s but key %q (db %d) now exists: %s", cmdString(args), got, k, db, after), d.replay(nil))
+			}
+		}
+	}
+	// SUT-only invariants, independent of the model (also checked when the model has no opinion on the step)
+	for k, kd := range dump.Keys {
+		if (kd.Type == "list" && len(kd.List) == 0) || (kd.Type == "hash" && len(kd.Hash) == 0) || (kd.Type == "set" && len(kd.Set) == 0) {
+			if kd.PTTL >= 0 && kd.PTTL < (dump.T1-dump.T0)+1000 {
+				continue // the key expired between the dump's TYPE and its content read
+			}
+			if resync { // otherwise compareKey reports it with the model's view
+				diverged = true
+				r.Report(fmt.Sprintf("%s/%s/state/%s/empty-aggregate-left-behind%s", d.monitor, tag, prior, dbTag),
+					fmt.Sprintf("after %s (reply %s): key %q in db %d exists as an empty %s", cmdString(args), got, k, db, kd.Type), d.replay(nil))
 			}
 		}
 	}
@@ -807,6 +837,9 @@ func keysOf(m map[string]bool) []string {
 
 // refineStateSig recognises specific, command-independent defects so that one defect has one signature.
 func refineStateSig(args []string, cls string, o *model.Obj, kd *keyDump, d0, d1 int64) string {
+	if cls == "ttl-changed" && o != nil && kd != nil && o.Deadline >= year9999Ms {
+		return "TTL/deadline-beyond-year-9999-clamped"
+	}
 	if cls == "ttl-changed" && o != nil && kd != nil {
 		// an exact deadline on a whole second can only come from an absolute-seconds option (EXAT)
 		wholeSecond := o.Deadline == o.DeadlineHi && o.Deadline%1000 == 0
@@ -818,8 +851,17 @@ func refineStateSig(args []string, cls string, o *model.Obj, kd *keyDump, d0, d1
 	return ""
 }
 
-// refineReplySig recognises specific defects from the reply alone.
-func refineReplySig(args []string, got resp.Value) string {
+// year9999Ms: 9999-12-31T23:59:59Z in Unix ms; the emulator marks "no expiry" with that instant and clamps later deadlines.
+const year9999Ms = int64(253402300799000)
+
+// refineReplySig recognises specific defects from the reply alone (o: the model's object under the command's first key).
+func refineReplySig(args []string, got resp.Value, o *model.Obj) string {
+	switch strings.ToUpper(args[0]) {
+	case "TTL", "PTTL", "EXPIRETIME", "PEXPIRETIME":
+		if o != nil && o.Deadline >= year9999Ms && got.Kind == ':' && got.Int > 0 {
+			return "TTL/deadline-beyond-year-9999-clamped"
+		}
+	}
 	if strings.EqualFold(args[0], "COPY") && got.IsError() && strings.Contains(string(got.Str), "database copy not supported") {
 		return "COPY+DB/unsupported"
 	}
